@@ -100,19 +100,19 @@ func ctrlLambda[I any](sp *CtrlSpec, rec *recorder) *compose.Lambda {
 	}
 	if sp.Nat[0] {
 		fi = func(ctx context.Context, in I, _ ...any) (string, error) {
-			rec.add(1, "I")
+			rec.add(ctx, 1, "I")
 			return ctrlShow(any(in)), nil
 		}
 	}
 	if sp.Nat[1] {
 		fs = func(ctx context.Context, in I, _ ...any) (*schema.StreamReader[string], error) {
-			rec.add(1, "S")
+			rec.add(ctx, 1, "S")
 			return ctrlEmit(sp, ctrlShow(any(in))), nil
 		}
 	}
 	if sp.Nat[2] {
 		fc = func(ctx context.Context, in *schema.StreamReader[I], _ ...any) (string, error) {
-			rec.add(1, "C")
+			rec.add(ctx, 1, "C")
 			x, err := whole(in)
 			if err != nil {
 				return "", err
@@ -122,7 +122,7 @@ func ctrlLambda[I any](sp *CtrlSpec, rec *recorder) *compose.Lambda {
 	}
 	if sp.Nat[3] {
 		ft = func(ctx context.Context, in *schema.StreamReader[I], _ ...any) (*schema.StreamReader[string], error) {
-			rec.add(1, "T")
+			rec.add(ctx, 1, "T")
 			x, err := whole(in)
 			if err != nil {
 				return nil, err
